@@ -217,7 +217,7 @@ var propRules = map[string]*PropSpec{
 		Technique:  techMix,
 	},
 	"C17": {
-		Rules:       []string{"A2.64", "A3.64", "F3.64", "F5", "F9", "A1.api64", "A5", "F12", "P6", "P2", "U1"},
+		Rules:       []string{"A2.64", "A3.64", "F3.64", "F5", "F9", "A1.api64", "A5", "F12", "P6", "P2", "U1", "F10"},
 		Explanation: explBase + " C17: the 64-bit bitmap's bucket table obeys the same ownership discipline (bucket = container), drops emptied buckets, inserts at the right index and its aggregates return fresh bitmaps.",
 		Decided:     []string{"every bucket write goes through an owned bucket (gate / fresh)", "every bucket store is owned / moved with its flag / cloned", "every may-empty bucket operation is followed by an emptiness test", "insertion index searched in the destination table (static Flip)", "FastOr/FastAnd/ParOr of one bitmap return a fresh bitmap", "read-only API never changes its arguments"},
 		NotDecided:  []string{"per-bucket range splitting", "Rank/Select accumulation", "iterator arithmetic", "absence of panics in general"},
@@ -235,11 +235,12 @@ var propRules = map[string]*PropSpec{
 		Technique:  techErr,
 	},
 	"C19": {
-		Rules:       []string{"PC1", "PC2", "B1", "P1", "A7", "U3", "A3.bsi", "A8", "P2", "A1.bsi"},
+		Rules:       []string{"PC1", "PC2", "B1", "P1", "A7", "U3", "A3.bsi", "A8", "P2", "A1.bsi", "F10.bsi"},
 		Explanation: explBase + " C19: every whole-index operation touches every plane including the sign plane; (un)marshal errors propagate; per-plane goroutines are joined.",
 		Decided: []string{
 			"planes of the 32-bit index are freshly built bitmaps, never a caller's bitmap (Add/addDigit, ParOr, UnmarshalBinary, NewBSIRetainSet)",
-			"Clone/NewBSIRetainSet, ClearValues, ParOr, RunOptimize, Equals, WriteTo/ReadFrom ... iterate over all len(bA) planes (sign plane included)", "SetValue/SetMany/SetBigValue/SetBigMany write (set or clear) every plane", "widening copies the old sign plane into every new plane up to the new top plane", "Marshal/Unmarshal/WriteTo/ReadFrom propagate errors", "per-plane goroutines are paired with a WaitGroup", "Clone/NewBSIRetainSet copy planes only from freshly cloned bitmaps (no shared headers)"},
+			"Clone/NewBSIRetainSet, ClearValues, ParOr, RunOptimize, Equals, WriteTo/ReadFrom ... iterate over all len(bA) planes (sign plane included)", "SetValue/SetMany/SetBigValue/SetBigMany write (set or clear) every plane", "widening copies the old sign plane into every new plane up to the new top plane", "Marshal/Unmarshal/WriteTo/ReadFrom propagate errors", "per-plane goroutines are paired with a WaitGroup", "Clone/NewBSIRetainSet copy planes only from freshly cloned bitmaps (no shared headers)",
+			"ClearValues removes its found-set from the existence bitmap only after (and never concurrently with) its last other use of it, so the found-set may be GetExistenceBitmap() itself"},
 		NotDecided: []string{"two's-complement encode/decode", "ripple-carry addition", "how many planes a value needs"},
 		Technique:  "static analysis: loop-bound vs slice-length agreement over go/ssa; error-flow rules",
 	},
